@@ -22,6 +22,8 @@
     list_rt, list_cap, list_refuse value trees of strings / numbers / lists; the depth cap 1000 counts
                                    non-empty lists only
     legacy_number64_counterexample, legacy_flag_counterexample  the two repaired defects
+    legacy_astring_counterexample  ExpectAString used to go on after a malformed literal header (repaired
+                                   under C04; the model follows the repaired decoder)
     string_wellformed              what String writes is accepted by the strict RFC 9051 string reader of
                                    Spec/Wire.lean, denotes the string, and obeys RFC 7888's literal rules
   Validated by the oracle only (not theorems): the same well-formedness for mailbox names (astring whose
@@ -289,7 +291,7 @@ theorem mailbox_rt (cfg : Cfg) (name : Wire.Bytes) (cps : List Nat) (hutf8 : Utf
   refine ⟨e1, h1, h2, ?_⟩
   have : e1.out = mboxBytes cfg name cps := by simpa using h3
   rw [this]
-  simpa using expectMailbox_mboxBytes cfg name cps hutf8 hlen c r hc none []
+  simpa using expectMailbox_mboxBytes cfg name cps hutf8 hlen c r hc []
 
 -- "Entwürfe" → "Entw&APw-rfe" and back; "inbox" → INBOX
 example : (encMailbox ⟨.client, false, false, false⟩ [69, 110, 116, 119, 195, 188, 114, 102, 101] {}).map Enc.out =
@@ -384,6 +386,15 @@ theorem legacy_flag_counterexample :
     (Legacy.encAttr [92] {}).err = false ∧
     (expectFlag ⟨[92, 13, 10], none, []⟩).1 = false ∧
     (encFlag [92] {}).err = true ∧ (encAttr [92] {}).err = true := by
+  decide
+
+/-- `ExpectAString` as shipped, on `{abc def`: the brace of the malformed literal is consumed, the
+    error is recorded, and yet the atom `abc` was returned as a successful astring; now it fails -/
+theorem legacy_astring_counterexample :
+    Legacy.expectAString .server ⟨[123, 97, 98, 99, 32, 100], none, []⟩ =
+      (true, [97, 98, 99], ⟨[32, 100], some .expect, []⟩) ∧
+    expectAString .server ⟨[123, 97, 98, 99, 32, 100], none, []⟩ =
+      (false, [], ⟨[97, 98, 99, 32, 100], some .expect, []⟩) := by
   decide
 
 end GoImap.C01
